@@ -18,7 +18,7 @@ limitations under the License.
 //> block content
 //? type_def.comment : type_def.java.comment | comment
 //? type_def.deprecated : "@Deprecated"
-{{ type_def.java.class_modifier }}class {{ type_def.java.name }} {
+{{ type_def.java.class_modifier }}class {{ type_def.java.name }}{{ (" implements Comparable<" ~ type_def.java.name ~ ">") if 'ord' in type_def.deriving and type_def.fields }} {
 //> for field in type_def.fields
     {{ field.java.field_modifier ~ field.java.data_type }} {{ field.java.name }};
 //> endfor
